@@ -9,7 +9,8 @@ import gen as G
 import tables
 
 THEOREMS = ["Adc.checkEquiv_sound", "Adc.elim_sound", "Adc.preferredTable_sem", "Adc.preferredTable_complete",
-            "Adc.infoLe_adm"]
+            "Adc.infoLe_adm", "Adc.chosen_step_applies", "Adc.evalDeltasStep_sound", "Adc.deltaDecision_spec",
+            "Adc.deltaDecision_none", "Adc.chooseDelta_none", "Adc.prefKill_spec"]
 RUN_WITHOUT_BUILD = False
 
 
@@ -63,6 +64,69 @@ def traced_evaluate(term, target_idx):
     finally:
         F.evaluate_deltas = orig
     return res, trace
+
+
+
+def code_targets(expr):
+    """the target indices evaluate_deltas determines itself (target_idx=None): indices that occur in exactly one argument
+    of the product (restated from the documentation of the sum convention; cross-checked against the argument the
+    recursion passes on)"""
+    from adcgen.indices import Index
+    cnt = {}
+    for a in expr.args:
+        for i in a.atoms(Index):
+            cnt[i] = cnt.get(i, 0) + 1
+    return [i for i, n in cnt.items() if n == 1]
+
+
+def check_levels(ctx, trace, res, replay):
+    """tie D for Adc/DeltaEval.lean: at every recursion level the code's next expression must be the model's step
+    (chooseDelta + elimDelta) on the current product; 'no step' must mean that the code returns the product unchanged"""
+    from adcgen.indices import get_symbols
+    from adcgen.sympy_objects import KroneckerDelta
+    # only the levels that work on a product of the original term (one chain)
+    for k in range(len(trace)):
+        e0, targ = trace[k]
+        if not isinstance(e0, Mul):
+            continue
+        e1 = trace[k + 1][0] if k + 1 < len(trace) else res
+        if any(isinstance(a, sympy.Pow) and isinstance(a.base, KroneckerDelta) for a in e0.args):
+            ctx.count("levels_skipped(power of a delta)")
+            continue
+        tobjs = code_targets(e0) if targ is None else list(get_symbols(targ))
+        if k > 0 and trace[k - 1][1] is None and targ is not None and set(targ) != set(code_targets(trace[k - 1][0])):
+            ctx.violation("the target indices passed to the next recursion level differ from the indices that occur once in the product",
+                          dict(replay, level=k))
+            return
+        try:
+            (x0, x1), ic = X.export_many([(e0, tobjs), (sympy.sympify(e1), tobjs)])
+        except X.Unsupported:
+            ctx.skip("unsupported")
+            return
+        if len(x0) != 1:
+            continue
+        order = [n for n, o in enumerate(x0[0][1]) if o[0] == "D"]
+        ans = ctx.drv().ask({"op": "deltastep", "t": X.j_term(x0[0]), "targets": [list(ic.conv(i)) for i in tobjs], "order": order})
+        ctx.count("recursion_levels_vs_model")
+        rep = dict(replay, level=k, current=str(e0), next=str(e1), model=ans)
+        if not ans.get("step"):
+            if sympy.sympify(e1) != e0:
+                ctx.violation("evaluate_deltas evaluated a delta although the model finds no delta whose evaluation keeps the "
+                              "target indices and the index information", rep)
+                return
+            continue
+        if not ans.get("applies"):
+            ctx.violation("model inconsistency: the chosen delta elimination does not apply (theorem chosen_step_applies)", rep)
+            return
+        if sympy.sympify(e1) == e0:
+            ctx.violation("evaluate_deltas left a delta in place that can be evaluated without losing a target index or information", rep)
+            return
+        r = ctx.drv().ask({"op": "equiv", "e1": X.j_expr([X.term_from_json(ans["t"])]), "e2": X.j_expr(x1), "c1": [[]],
+                           "c2": [[] for _ in x1]})
+        if not r.get("ok"):
+            ctx.violation(f"recursion level {k}: evaluate_deltas did not perform the substitution of the model "
+                          f"(delta #{ans['k']}, remove the {'second' if ans['kill_second'] else 'first'} index)", rep)
+            return
 
 
 def idx_info_le(a, b):
@@ -221,6 +285,7 @@ def run(ctx):
                 ctx.skip("validator_inconclusive")
                 ctx.notes.append(f"inconclusive: {r['e1']} || {r['e2']} || {r['lean']}")
             continue
+        check_levels(ctx, trace, res, replay)
         # ---- information clause, from the recursion trace: consecutive expressions differ by one
         # substitution killable -> preferred
         targets_now = None
